@@ -714,6 +714,12 @@ def run(ctx):
             in_names = sorted(w.name for w in ins)
             probes = [(m.id, a) for m in mems for a in range(1 << m.addrwidth)]
             pss = pass_sequences(ctx, rng, kind, i)
+            # wide designs (hundreds of select indices / nets) blow up under repeated one_bit_selects and make the
+            # quadratic well-formedness models take minutes: keep every single pass and the pairs, drop the rest
+            weight = len(block.logic) + sum(len(n.op_param) for n in block.logic if n.op == 's')
+            if weight > 400:
+                pss = [ps for ps in pss if len(ps) == 1 or (len(ps) == 2 and ps.count(4) == 0)][:12]
+                ctx.count('heavy_designs_with_reduced_sequences', kind)
             stim = '%d %s %s %s %s' % (dflt, dump.regmap(regmap), dump.memmap(memmap),
                                         dump.inputs(inputs), nlx.pairs(probes))
             spec_exprs.append('spec_case %s %s' % (dump.coq(), stim))
